@@ -122,6 +122,11 @@ func runC02(r *harness.Run) {
 	gens["L/F-call"] = mapGen(gens["F-call"], "L/", lockMeta)
 	gens["L/F-tail"] = mapGen(gens["F-tail"], "L/", lockMeta)
 	order = append(order, "L/F-call", "L/F-tail")
+	// method and field names whose constant index is beyond 255 and beyond 511 (both wrap-around
+	// points of the RK operand encoding)
+	gens["K300/F-call"] = mapGen(gens["F-call"], "K300/", constPressure(300))
+	gens["K600/F-call"] = mapGen(gens["F-call"], "K600/", constPressure(600))
+	order = append(order, "K300/F-call", "K600/F-call")
 	pr.runGens(gens, order)
 	c02LongTail(r)
 	runPinned(r, "C02")
